@@ -14,13 +14,28 @@ func generate(tier string, r *rng.R) []fw.Case {
 	}
 	var cs []fw.Case
 	for i := 0; i < n; i++ {
+		f := r.Fork()
+		var c fw.Case
 		if i%6 == 5 {
-			cs = append(cs, lateCollectCase(r.Fork()))
+			c = lateCollectCase(f)
 		} else if i%3 == 0 {
-			cs = append(cs, clusterCase(r.Fork()))
+			c = clusterCase(f)
 		} else {
-			cs = append(cs, envh.GenCase(r.Fork(), profile))
+			c = envh.GenCase(f, profile)
 		}
+		// every other case: some of its failing call executions fail in a NAMED way (ways.go)
+		if i%2 == 1 {
+			c = mixWays(c, f)
+		}
+		cs = append(cs, c)
+	}
+	// the grid way × criticality × moment kind × weight sign, once (quick) or eight times over
+	rounds := 1
+	if tier == "thorough" {
+		rounds = 8
+	}
+	for i := 0; i < rounds; i++ {
+		cs = append(cs, waysGrid(r.Fork())...)
 	}
 	return cs
 }
@@ -37,7 +52,8 @@ func init() {
 		Setup:      envh.Setup,
 		Teardown:   envh.Teardown,
 		TrustedBase: []string{
-			"harness/envh: environment builder (YAML roles, NewTaskForVerif tasks), probe plugin (verifprobe.Probe), event capture, fake task manager answering ReleaseTasks",
+			"harness/envh: environment builder (YAML roles, NewTaskForVerif tasks), probe plugin (verifprobe.Probe; ways.go: the ways it makes a call fail), event capture, fake task manager answering ReleaseTasks",
+			"harness/props/c09/facts.go: go/ast facts about (*Call).Call() / Start / Await / AwaitAll of core/workflow/callable/call.go",
 			"verif hooks in /repo: core/environment/verif_hooks.go, core/workflow/verif_hooks.go, core/the/verif_hooks.go, core/task/verif_hooks_task.go",
 			"trace monitor (lean/ControlModel/Spec/EnvTrace.lean): probe calls are judged by windows and happens-before, not by exact position",
 		},
